@@ -149,6 +149,13 @@ class Cls:
                         self.consts[t.id] = st.value
 
 
+def mapping_inv(mapping: Dict[str, str], canon: str) -> str:
+    for k, v in mapping.items():
+        if v == canon:
+            return k
+    return canon
+
+
 class Program:
     """All modules of the package, parsed, with lookup tables."""
 
@@ -183,11 +190,120 @@ class Program:
                 raise AnalysisError("model", f"{rel} does not parse: {e}")
             mod = f[:-3]
             self.modules[mod] = (rel, src, tree)
+        self.renamed: Dict[str, str] = {}
+        self._canonicalise()
+        from .inline import normalise
+        self.inlined: List[str] = normalise(self.modules)
+        for mod, (rel, src, tree) in self.modules.items():
             for parent in ast.walk(tree):
                 for child in ast.iter_child_nodes(parent):
                     child._parent = parent  # type: ignore[attr-defined]
             tree._parent = None  # type: ignore[attr-defined]
             self._index_module(mod, tree)
+
+    # ------------------------------------------------------- canonical names
+    def _canonicalise(self) -> None:
+        """Give private helpers that the rules (and known-finding keys) refer to by name their
+        canonical names, found by *role*, so that a consistent rename of a private helper does not
+        change any verdict or key.  Public API names and names pinned by the test suite are the
+        anchors; only names that are absent under their canonical spelling are mapped."""
+        def cls_of(tree, name):
+            for n in tree.body:
+                if isinstance(n, ast.ClassDef) and n.name == name:
+                    return n
+            return None
+
+        def method(c, name):
+            for n in c.body:
+                if isinstance(n, (ast.FunctionDef, ast.AsyncFunctionDef)) and n.name == name:
+                    return n
+            return None
+
+        def sole_self_call(fn):
+            calls = [x for x in ast.walk(fn) if isinstance(x, ast.Call) and isinstance(x.func, ast.Attribute)
+                     and isinstance(x.func.value, ast.Name) and x.func.value.id == "self"]
+            names = {c.func.attr for c in calls}
+            return names.pop() if len(names) == 1 else None
+
+        mapping: Dict[str, str] = {}
+        db = self.modules.get("database")
+        if db:
+            tf = cls_of(db[2], "TinyFlux")
+            if tf is not None:
+                for api, canon in (("remove", "_remove_helper"), ("update", "_update_helper"),
+                                   ("insert", "_insert_helper"), ("remove_all", "_reset_database")):
+                    m = method(tf, api)
+                    if m is not None and method(tf, canon) is None:
+                        nm = sole_self_call(m)
+                        if nm and nm.startswith("_") and method(tf, nm) is not None:
+                            mapping[nm] = canon
+                uh = method(tf, mapping_inv(mapping, "_update_helper")) or method(tf, "_update_helper")
+                if uh is not None and method(tf, "_generate_updater") is None:
+                    # name = self._x(...) whose result is later called like a function
+                    for a in ast.walk(uh):
+                        if isinstance(a, ast.Assign) and isinstance(a.value, ast.Call) \
+                                and isinstance(a.value.func, ast.Attribute) and isinstance(a.value.func.value, ast.Name) \
+                                and a.value.func.value.id == "self" and len(a.targets) == 1 \
+                                and isinstance(a.targets[0], ast.Name):
+                            v = a.targets[0].id
+                            if any(isinstance(c, ast.Call) and isinstance(c.func, ast.Name) and c.func.id == v
+                                   for c in ast.walk(uh)) and method(tf, a.value.func.attr) is not None:
+                                mapping[a.value.func.attr] = "_generate_updater"
+        ix = self.modules.get("index")
+        if ix:
+            ic = cls_of(ix[2], "Index")
+            if ic is not None:
+                sh = method(ic, "_search_helper")
+                if sh is not None:
+                    canon_leaf = {"_time": "_search_timestamps", "_measurement": "_search_measurement",
+                                  "_tags": "_search_tags", "_fields": "_search_fields"}
+                    for n in ast.walk(sh):
+                        if isinstance(n, ast.If) and isinstance(n.test, ast.Compare) and len(n.test.comparators) == 1 \
+                                and isinstance(n.test.comparators[0], ast.Constant) \
+                                and n.test.comparators[0].value in canon_leaf:
+                            want = canon_leaf[n.test.comparators[0].value]
+                            for c in ast.walk(n):
+                                if isinstance(c, ast.Call) and isinstance(c.func, ast.Attribute) \
+                                        and isinstance(c.func.value, ast.Name) and c.func.value.id == "self" \
+                                        and c.func.attr.startswith("_") and c.func.attr != "_search_helper" \
+                                        and method(ic, c.func.attr) is not None and method(ic, want) is None \
+                                        and c.func.attr != want:
+                                    mapping[c.func.attr] = want
+        # constructor-parameter slots: `self._x = param` keeps the attribute name of the validated tree
+        from .inline import load_attr_inventory
+        inv_attr = load_attr_inventory()
+        if inv_attr:
+            all_attrs = {n.attr for (_, _, t) in self.modules.values() for n in ast.walk(t) if isinstance(n, ast.Attribute)}
+            known_attr_names = set(inv_attr.values())
+            for (_, _, t) in self.modules.values():
+                for c in t.body:
+                    if not isinstance(c, ast.ClassDef):
+                        continue
+                    init = method(c, "__init__")
+                    if init is None:
+                        continue
+                    params = {a.arg for a in init.args.posonlyargs + init.args.args + init.args.kwonlyargs} - {"self"}
+                    for n in ast.walk(init):
+                        if isinstance(n, (ast.Assign, ast.AnnAssign)):
+                            ts = n.targets if isinstance(n, ast.Assign) else [n.target]
+                            v = n.value
+                            if len(ts) == 1 and isinstance(ts[0], ast.Attribute) and isinstance(ts[0].value, ast.Name) \
+                                    and ts[0].value.id == "self" and isinstance(v, ast.Name) and v.id in params:
+                                want = inv_attr.get((c.name, v.id))
+                                cur = ts[0].attr
+                                if want and cur != want and want not in all_attrs and cur not in known_attr_names \
+                                        and cur.startswith("_"):
+                                    mapping[cur] = want
+        mapping = {k: v for k, v in mapping.items() if k != v}
+        if not mapping:
+            return
+        self.renamed = dict(mapping)
+        for mod, (rel, src, tree) in self.modules.items():
+            for n in ast.walk(tree):
+                if isinstance(n, (ast.FunctionDef, ast.AsyncFunctionDef)) and n.name in mapping:
+                    n.name = mapping[n.name]
+                elif isinstance(n, ast.Attribute) and n.attr in mapping:
+                    n.attr = mapping[n.attr]
 
     def _index_module(self, mod: str, tree: ast.Module) -> None:
         imports: Dict[str, str] = {}
